@@ -62,13 +62,19 @@ func e8fail(format string, a ...interface{}) { panic(e8err{fmt.Sprintf(format, a
 
 // assignment of ranks / truth values to atoms
 type e8assign struct {
-	rank  map[string]int
-	bools map[string]bool
-	group func(string) int
+	rank    map[string]int
+	bools   map[string]bool
+	group   func(string) int
+	resolve func(name string) (int, bool) // optional: computes the rank of derived atoms (sign domain)
 }
 
 func (a *e8assign) R(name string) int {
 	r, ok := a.rank[name]
+	if !ok && a.resolve != nil {
+		if v, ok2 := a.resolve(name); ok2 {
+			return v
+		}
+	}
 	if !ok {
 		e8fail("scalar %q is not an enumerated atom (the code computes a value the comparison-network model does not cover)", name)
 	}
